@@ -206,7 +206,8 @@ def oracle(pr, sc, res, obs):
     hooks = [e for e in tr if e.startswith(("pre_hook", "post_hook"))]
     if sc["dry"] and (obs["written"] or muts or hooks):
         return "--dry changed %r / issued %r / ran %r" % (obs["changed"], muts, hooks)
-    if res["exit"] != 0 and not obs["written"] and (muts or hooks) and "rewrite" not in tr:
+    noop_rewrite = sc["set_version"] == pr["old"]          # the rewrite writes what is already there: invisible from outside
+    if res["exit"] != 0 and not obs["written"] and (muts or hooks) and "rewrite" not in tr and not noop_rewrite:
         return "the run failed before the rewrite (exit %s) but issued %r / ran %r" % (obs["raw_exit"], muts, hooks)
     if obs["written"]:
         if set(obs["changed"]) - (set(pr["files"]) | {"bumpver.toml"}):
